@@ -261,7 +261,39 @@ pub struct Finding {
 }
 
 /// The oracle for one finished step.
-fn classify_step(st: &StepT, s: &StepOut, rule_files: &[(String, Vec<String>, usize)]) -> Vec<Finding> {
+/// Rule names a run reports as evaluated: from the rule-name fields of JSON reports (a data
+/// value or key that merely contains the same text is not a report of the rule). The flag
+/// says whether any JSON report was seen (console text is matched as `<file>/<rule>` instead).
+fn reported_rules(so: &str) -> (bool, Vec<String>) {
+    let mut reported: Vec<String> = Vec::new();
+    let docs: Option<Vec<serde_json::Value>> = crate::c12::parse_json_stream(so.as_bytes());
+    let mut json_seen = false;
+    if let Some(docs) = docs {
+        let mut stack: Vec<serde_json::Value> = docs;
+        while let Some(v) = stack.pop() {
+            match v {
+                serde_json::Value::Array(a) => stack.extend(a),
+                serde_json::Value::Object(o) => {
+                    if o.contains_key("not_compliant") || o.contains_key("compliant") {
+                        json_seen = true;
+                        for k in ["compliant", "not_applicable"] {
+                            if let Some(a) = o.get(k).and_then(|x| x.as_array()) {
+                                reported.extend(a.iter().filter_map(|x| x.as_str().map(String::from)));
+                            }
+                        }
+                        if let Some(a) = o.get("not_compliant").and_then(|x| x.as_array()) {
+                            reported.extend(a.iter().filter_map(|e| e.get("Rule").and_then(|r| r.get("name")).and_then(|n| n.as_str()).map(String::from)));
+                        }
+                    }
+                }
+                _ => {}
+            }
+        }
+    }
+    (json_seen, reported)
+}
+
+fn classify_step(st: &StepT, s: &StepOut, rule_files: &[(String, Vec<String>, usize, bool)], read_faults: bool) -> Vec<Finding> {
     let mut out = Vec::new();
     match s.res.outcome.as_str() {
         "panic" => {
@@ -294,7 +326,7 @@ fn classify_step(st: &StepT, s: &StepOut, rule_files: &[(String, Vec<String>, us
     if st.class.starts_with("validate") && !st.class.contains("payload") {
         let err = String::from_utf8_lossy(&strip_ansi(&s.stderr)).into_owned();
         let so = String::from_utf8_lossy(&strip_ansi(&s.stdout)).into_owned();
-        for (fname, rule_names, nlines) in rule_files {
+        for (fname, rule_names, nlines, _) in rule_files {
             let marker = format!("Parsing error handling rule file = {}", fname);
             if let Some(p) = err.find(&marker) {
                 let tail = &err[p..];
@@ -316,34 +348,7 @@ fn classify_step(st: &StepT, s: &StepOut, rule_files: &[(String, Vec<String>, us
                         }
                     }
                 }
-                // rule names the run reports as evaluated: from the rule-name fields of JSON
-                // reports, or as `<file>/<rule>` in console text (a data value or key that merely
-                // contains the same text is not a report of the rule)
-                let mut reported: Vec<String> = Vec::new();
-                let docs: Option<Vec<serde_json::Value>> = crate::c12::parse_json_stream(so.as_bytes());
-                let mut json_seen = false;
-                if let Some(docs) = docs {
-                    let mut stack: Vec<serde_json::Value> = docs;
-                    while let Some(v) = stack.pop() {
-                        match v {
-                            serde_json::Value::Array(a) => stack.extend(a),
-                            serde_json::Value::Object(o) => {
-                                if o.contains_key("not_compliant") || o.contains_key("compliant") {
-                                    json_seen = true;
-                                    for k in ["compliant", "not_applicable"] {
-                                        if let Some(a) = o.get(k).and_then(|x| x.as_array()) {
-                                            reported.extend(a.iter().filter_map(|x| x.as_str().map(String::from)));
-                                        }
-                                    }
-                                    if let Some(a) = o.get("not_compliant").and_then(|x| x.as_array()) {
-                                        reported.extend(a.iter().filter_map(|e| e.get("Rule").and_then(|r| r.get("name")).and_then(|n| n.as_str()).map(String::from)));
-                                    }
-                                }
-                            }
-                            _ => {}
-                        }
-                    }
-                }
+                let (json_seen, reported) = reported_rules(&so);
                 for rn in rule_names {
                     let hit = if json_seen { reported.iter().any(|x| x == rn) } else { so.contains(&format!("{}/{}", fname, rn)) };
                     if hit {
@@ -351,6 +356,26 @@ fn classify_step(st: &StepT, s: &StepOut, rule_files: &[(String, Vec<String>, us
                         break;
                     }
                 }
+            }
+        }
+        // (5) a rules file KNOWN not to conform to the grammar (a line of stray brackets at top
+        // level, after the last rule) must be rejected whatever the tool says about it
+        let whole_dir = st.argv.iter().any(|a| a == "@/rules");
+        for (fname, rule_names, _, known_bad) in rule_files {
+            // (under injected read faults the tool may legitimately see a shorter, valid file)
+            if read_faults || !*known_bad || !(whole_dir || st.argv.iter().any(|a| a.ends_with(&format!("rules/{}", fname)))) {
+                continue;
+            }
+            let (json_seen, reported) = reported_rules(&so);
+            for rn in rule_names {
+                let hit = if json_seen { reported.iter().any(|x| x == rn) } else { so.contains(&format!("{}/{}", fname, rn)) };
+                if hit {
+                    out.push(Finding { sig: "ungrammatical-file-evaluated".into(), what: format!("rules file {} does not conform to the grammar (stray brackets after its last rule) but its rule {} appears in the report of `{}`", fname, rn, st.class) });
+                    break;
+                }
+            }
+            if s.res.outcome == "exit" && !err.contains(&format!("Parsing error handling rule file = {}", fname)) && !err.contains("Unable read content") && !err.contains("did not contain valid UTF-8") {
+                out.push(Finding { sig: "ungrammatical-file-not-rejected".into(), what: format!("rules file {} does not conform to the grammar but `{}` (exit {}) reports no parse error for it", fname, st.class, s.res.code) });
             }
         }
     }
@@ -380,7 +405,8 @@ pub struct Scn8 {
     pub steps: Vec<StepT>,
     pub faults: FaultSpec,
     /// (file name as the tool prints it, unique rule names, number of lines) per rules file
-    pub rule_files: Vec<(String, Vec<String>, usize)>,
+    /// (file name, its rule names, line count, known not to conform to the grammar)
+    pub rule_files: Vec<(String, Vec<String>, usize, bool)>,
     /// storage-fault kinds applied (sorted, deduplicated), for the coverage key
     pub fault_kinds: String,
 }
@@ -432,7 +458,7 @@ impl C08 {
                 if es.contains("Parsing error handling rule file") {
                     rep.count("reach.rules_parse_error_reported", 1);
                 }
-                for f in classify_step(&scn.steps[gi], s, &scn.rule_files) {
+                for f in classify_step(&scn.steps[gi], s, &scn.rule_files, scn.faults != FaultSpec::Off) {
                     found.push((gi, f));
                 }
             }
@@ -456,7 +482,7 @@ impl C08 {
 
     fn to_json(&self, scn: &Scn8) -> Value {
         json!({"files": files_to_json(&scn.files), "steps": scn.steps.iter().map(|s| s.to_json()).collect::<Vec<_>>(), "faults": serde_json::to_value(&scn.faults).unwrap(),
-               "rule_files": scn.rule_files.iter().map(|(a, b, c)| json!([a, b, c])).collect::<Vec<_>>()})
+               "rule_files": scn.rule_files.iter().map(|(a, b, c, d)| json!([a, b, c, d])).collect::<Vec<_>>()})
     }
 
     fn from_json(&self, v: &Value) -> Option<Scn8> {
@@ -470,7 +496,7 @@ impl C08 {
                 .iter()
                 .filter_map(|x| {
                     let a = x.as_array()?;
-                    Some((a.get(0)?.as_str()?.to_string(), a.get(1)?.as_array()?.iter().filter_map(|s| s.as_str().map(String::from)).collect(), a.get(2)?.as_u64()? as usize))
+                    Some((a.get(0)?.as_str()?.to_string(), a.get(1)?.as_array()?.iter().filter_map(|s| s.as_str().map(String::from)).collect(), a.get(2)?.as_u64()? as usize, a.get(3).and_then(|b| b.as_bool()).unwrap_or(false)))
                 })
                 .collect(),
             fault_kinds: String::new(),
@@ -560,6 +586,10 @@ impl C08 {
         let mut order: Vec<usize> = (0..scn.files.len()).collect();
         order.sort_by_key(|i| std::cmp::Reverse(scn.files[*i].bytes.len()));
         for fi in order {
+            // the "known not to conform to the grammar" label belongs to the bytes as generated
+            if sig.starts_with("ungrammatical-") && scn.rule_files.iter().any(|(f, _, _, bad)| *bad && scn.files[fi].rel.ends_with(&format!("rules/{}", f))) {
+                continue;
+            }
             let mut chunk = (scn.files[fi].bytes.len() + 1) / 2;
             while chunk >= 1 && execs < budget {
                 let mut pos = 0;
@@ -746,13 +776,28 @@ impl C08 {
             }
             steps.push(st);
         }
+        // one rules file that is KNOWN not to conform to the grammar: a line of stray brackets at
+        // top level after its last rule (only a file no storage fault has touched, so that the
+        // line cannot sit inside a string, a message or a comment)
+        let mut known_bad: Option<usize> = None;
+        if r.chance(1, 5) {
+            let i = r.usize(wl.progs.len());
+            let rel = rules_rel(i);
+            if !applied.iter().any(|(f, _)| *f == rel) {
+                if let Some(f) = files.iter_mut().find(|f| f.rel == rel) {
+                    f.bytes.extend_from_slice(*r.pick(&[&b"\n}} ]] ((\n"[..], &b"\n]]\n"[..], &b"\nrule {\n"[..], &b"\n)) }}\n"[..]]));
+                    known_bad = Some(i);
+                    rep.count("gen.known_ungrammatical_rules_file", 1);
+                }
+            }
+        }
         let rule_files = wl
             .progs
             .iter()
             .enumerate()
             .map(|(i, p)| {
                 let text = files.iter().find(|f| f.rel == rules_rel(i)).map(|f| f.bytes.clone()).unwrap_or_default();
-                (format!("r{}.guard", i), p.rule_names(), text.iter().filter(|b| **b == b'\n').count() + 1)
+                (format!("r{}.guard", i), p.rule_names(), text.iter().filter(|b| **b == b'\n').count() + 1, known_bad == Some(i))
             })
             .collect();
         let mut kinds: Vec<&str> = applied.iter().map(|(_, k)| *k).collect();
